@@ -71,5 +71,4 @@ package reader
 // ParseAllXRefs returns them (oldest first: MergeXRefTables lets the last one win) ----
 //@ func (*Reader) loadXRef results (res, err)
 //@   property C04
-//@   flags nosafety
 //@   callsite MergeXRefTables(ts) requires all_sections_in_parse_order: sameseq(ts, tables)
